@@ -6,7 +6,7 @@
 #   scripts/sensitivity.sh [--tier quick|thorough] [mutant-name ...]
 set -u
 VERIF="$(cd "$(dirname "$0")/.." && pwd)"
-S=/tmp/sens
+S="${SENS_DIR:-/tmp/sens}"
 TIER=quick
 if [ "${1:-}" = "--tier" ]; then TIER="$2"; shift 2; fi
 IDS="C02 C04 C05 C06 C07 C08 C09 C10 C13"
@@ -28,7 +28,9 @@ for name in $NAMES; do
     git -C "$S/repo" checkout -q -- . 
     expected="-"
     if [ "$name" != "BASELINE" ]; then
-        if ! git -C "$S/repo" apply "$VERIF/mutants/$name.diff" 2>"$S/apply.err"; then
+        patch="$VERIF/mutants/$name.diff"
+        case "$name" in *.diff) patch="$name"; name="$(basename "$name" .diff)" ;; esac
+        if ! git -C "$S/repo" apply "$patch" 2>"$S/apply.err"; then
             printf "%s\t-\tPATCH-DOES-NOT-APPLY\n" "$name"; continue
         fi
         expected=$(python3 -c "import json,sys; print(','.join(json.load(open('$VERIF/mutants/INDEX.json')).get('$name',[])))")
